@@ -38,11 +38,21 @@ I2 = InterfaceClass('I2', (I1,), __doc__='harness interface 2 (extends I1)')
 IFACES = {1: I1, 2: I2}
 IFACE_ID_OTHER = 90          # resolution-order members no registration can name (implementedBy(object), …)
 
-OFFERS = ['text/html', 'application/json', 'text/plain', 'text/html;level=1', 'application/x-foo', 'image/x-bar;v=1']
+OFFER_BASES = ['text/html', 'application/json', 'text/plain', 'application/x-foo', 'image/x-bar']
+OFFER_PARAMS = [';charset=utf8', ';level=1', ';v=1']
+# every media type also as parametrised twins: a bare range in the Accept header matches the twins too, and
+# sort_accept_offers ranks a parametrised offer ahead of its bare type
+OFFERS = OFFER_BASES + [b + p for b in OFFER_BASES for p in OFFER_PARAMS]
 ACCEPT_HEADERS = [None, None, '*/*', 'text/html', 'application/json', 'application/json, text/html;q=0.5',
                   'text/*;q=0.3, application/json;q=0.7', 'text/html;q=0, */*;q=0.1', 'text/html;level=1',
                   'text/html;level=1;q=0.4, text/html;q=0.9', 'application/x-foo, text/plain;q=0.2',
-                  'image/*', 'bogus;;;', 'text/plain;q=0.5, text/html;q=0.5']
+                  'image/*', 'bogus;;;', 'text/plain;q=0.5, text/html;q=0.5',
+                  # exactly one bare type / one type with parameters / wildcards / lists mixing them
+                  'text/plain', 'application/x-foo', 'image/x-bar', 'text/html;charset=utf8', 'application/json;charset=utf8',
+                  'text/plain;level=1', 'image/x-bar;v=1', 'TEXT/HTML', 'text/html;charset=UTF8', 'text/*', 'application/*',
+                  'text/html;charset=utf8, text/html;q=0.5', 'text/html, text/html;charset=utf8;q=0.2',
+                  'application/json;charset=utf8;q=0.1, application/json;q=0.9, */*;q=0.01', 'text/html;q=0.5, text/html;level=1;q=0',
+                  'image/x-bar;v=1;q=0.3, image/*;q=0.8', 'text/html;level=2']
 METHODS = ['GET', 'HEAD', 'POST', 'PUT', 'DELETE']
 PARAM_SPECS = ['a', 'b', 'a=1', 'a=2', 'b=1', ' a = 1 ', '=a', '=a=1', 'a=', 'a=1=2', 'é=ü', 'a= ', 'c']
 PARAM_KEYS = ['a', 'b', '=a', 'é', 'c', ' a ']
@@ -662,7 +672,7 @@ def related_classes(classes, tree):
     return sorted(out)
 
 
-def gen_opts(rng, nclasses, routes, offers, rich, rel=None):
+def gen_opts(rng, nclasses, routes, offers, rich, rel=None, p_accept=0.3):
     o, notted = {}, []
     k = rng.choice([0, 0, 1, 1, 1, 2, 2, 3] + ([4, 5] if rich else []))
     names = rng.sample(['xhr', 'request_method', 'path_info', 'request_param', 'header', 'containment', 'match_param',
@@ -691,8 +701,26 @@ def gen_opts(rng, nclasses, routes, offers, rich, rel=None):
             o[name] = rng.sample(range(4), rng.choice([1, 1, 2]))
         if name != 'custom' and rng.random() < 0.15:
             notted.append(name)
-    accept = rng.choice(offers) if offers and rng.random() < 0.3 else None
+    accept = rng.choice(offers) if offers and rng.random() < p_accept else None
     return o, notted, accept
+
+
+ORDERED_TYPES = ('text/html', 'text/plain', 'application/json')      # of OFFER_BASES, the ones in the default accept order
+
+
+def distinct_offer_keys(offers):
+    """keep the offers whose `sort_accept_offers` key is not taken yet.  Two offers with the SAME key (two parametrised
+    twins of one type, or two types that are both missing from the accept-order list) are ordered by the iteration
+    order of a Python set of strings, i.e. by PYTHONHASHSEED: not a function of the registrations, so neither the model
+    nor the statement says which bucket comes first (see notes/C03.md, "equal offer keys")."""
+    seen, out = set(), []
+    for o in offers:
+        base = o.split(';')[0]
+        key = (base if base in ORDERED_TYPES else '?', ';' in o)
+        if key not in seen:
+            seen.add(key)
+            out.append(o)
+    return out
 
 
 def gen_app(rng, big=False):
@@ -708,7 +736,19 @@ def gen_app(rng, big=False):
         routes.append({'name': 'r1', 'pattern': '/r1/{mp}*traverse', 'ugv': rng.random() < 0.5})
     if nr >= 2:
         routes.append({'name': 'r2', 'pattern': '/r2/{mp}', 'ugv': rng.random() < 0.5})
-    offers = rng.sample(OFFERS, rng.choice([0, 1, 2, 2, 3]))
+    offers = distinct_offer_keys(rng.sample(OFFERS, rng.choice([0, 1, 2, 3, 4])))
+    p_accept = 0.3
+    if rng.random() < 0.35:
+        # a media-type FAMILY: a bare type with one of its parametrised twins (+ sometimes another type and its twin),
+        # and many accept views, so that several accept views share a slot
+        base = rng.choice(OFFER_BASES)
+        offers = [base, base + rng.choice(OFFER_PARAMS)]
+        if rng.random() < 0.5:
+            other = rng.choice([b for b in OFFER_BASES if b != base])
+            offers += [other] + ([other + rng.choice(OFFER_PARAMS)] if rng.random() < 0.5 else [])
+        rng.shuffle(offers)
+        offers = distinct_offer_keys(offers)
+        p_accept = 0.65
     nregs = rng.choice([2, 3, 4, 5, 6, 8] if not big else [6, 8, 10, 12, 14])
     regs = []
     # a few "focus" slots so that views really compete
@@ -730,7 +770,7 @@ def gen_app(rng, big=False):
                 reg['perm'] = not reg.get('perm', False)
             regs.append(reg)
             continue
-        o, notted, accept = gen_opts(rng, n, routes, offers, rich, rel)
+        o, notted, accept = gen_opts(rng, n, routes, offers, rich, rel, p_accept)
         regs.append({'ctx': ctx, 'name': name, 'route': route, 'opts': o, 'not': notted, 'accept': accept,
                      'perm': rng.random() < 0.15, 'tag': t + 1})
     return {'classes': classes, 'tree': tree, 'routes': routes, 'regs': regs,
@@ -883,6 +923,38 @@ def gen_race_cases(rng, n):
         yield race_case(a, b, swap=rng.random() < 0.5, extra_custom=rng.choice([0, 0, 1, 2]))
 
 
+# ------------------------------------------------------------------------------------------------------
+# "accept family": ONE slot holding 2-3 views with accept= over {text/html, text/html;charset=utf8, application/json},
+# each with no further predicate, one that holds (xhr) or one that fails (request_method=POST) for the fixed request,
+# in every registration order, against 8 Accept headers (exactly the bare type, the parametrised type, another type,
+# wildcards, lists with q-values, none).  Which bucket MultiView.get_views tries first, and that no acceptable bucket is
+# dropped, shows in the outcome: a failing bare view must fall through to the holding parametrised one, etc.
+FAMILY_OFFERS = ['text/html', 'text/html;charset=utf8', 'application/json']
+FAMILY_OPTS = [{}, {'xhr': True}, {'request_method': 'POST'}]
+FAMILY_ACCEPTS = ['text/html', 'text/html;charset=utf8', 'application/json', '*/*', 'text/*;q=0.5, application/json',
+                  'text/html;q=0.2, text/html;charset=utf8;q=0.9', 'application/json;q=0, text/html', None]
+
+
+def family_case(views, accept, plain=None):
+    regs = [{'ctx': None, 'name': '', 'route': None, 'opts': dict(o), 'not': [], 'accept': a, 'perm': False, 'tag': t + 1}
+            for t, (a, o) in enumerate(views)]
+    if plain is not None:
+        regs.append({'ctx': None, 'name': '', 'route': None, 'opts': dict(plain), 'not': [], 'accept': None, 'perm': False,
+                     'tag': len(regs) + 1})
+    return {'classes': RACE_CLASSES, 'tree': RACE_TREE, 'routes': [], 'regs': regs, 'commit': 'auto', 'nf': True,
+            'req': {'path': '/', 'method': 'GET', 'qs': '', 'body': None, 'ctype': None, 'headers': [], 'accept': accept,
+                    'xhr': 'XMLHttpRequest', 'auth': False, 'permitted': True, 'custom': []}}
+
+
+def family_cases(nviews):
+    kinds = [(a, o) for a in FAMILY_OFFERS for o in FAMILY_OPTS]
+    for views in itertools.permutations(kinds, nviews):          # every registration order
+        if len({a for a, _ in views}) < 2:
+            continue                                             # at least two different offers in the slot
+        for acc in FAMILY_ACCEPTS:
+            yield family_case(views, acc)
+
+
 def gen_cases(rng, napps, nreq, big=False):
     for _ in range(napps):
         app = gen_app(rng, big=big)
@@ -1005,6 +1077,9 @@ def run(ctx):
     cases += list(gen_cases(rng, napps, nreq))
     cases += list(gen_cases(rng, ctx.n(30, 600), nreq, big=True))
     cases += list(gen_race_cases(rng, ctx.n(400, 3000)))
+    fam2 = list(family_cases(2))
+    fam3 = list(family_cases(3))
+    cases += fam2 + (rng.sample(fam3, 500) if ctx.tier == 'quick' else fam3)
     results = []
     for case in cases:
         if ctx.time_left() < 60:
@@ -1125,7 +1200,9 @@ def run(ctx):
 def search(ctx):
     """small-scope exhaustive search for an input on which the implementation violates the statement:
     all populations of <= 3 views over 2 context classes x {none, 3 predicates} x both names, in every registration
-    order, against the cross product of the predicates' boundary requests; then a random deep stream."""
+    order, against the cross product of the predicates' boundary requests; the accept family (2-3 accept views of one
+    slot over {text/html, text/html;charset=utf8, application/json} x {no / holding / failing extra predicate} in every
+    order x 8 Accept headers); the count races; then a random deep stream."""
     classes = [{'bases': [], 'impl': []}, {'bases': [0], 'impl': []}]
     tree = [{'cls': 1, 'named': True, 'provides': []}]
     optsets = [({}, [], None), ({'request_method': 'GET'}, [], None), ({'request_param': 'a=1'}, [], None),
@@ -1174,6 +1251,16 @@ def search(ctx):
                         return {'violations': viol, 'searched': n, 'exhaustive': False}
             if ctx.time_left() < 120:
                 return {'violations': viol, 'searched': n, 'exhaustive': False}
+        if viol:
+            return {'violations': viol, 'searched': n, 'exhaustive': False}
+    # accept family: every 2-view and 3-view population over FAMILY_OFFERS x FAMILY_OPTS in every order x 8 Accept headers
+    for nv in (2, 3):
+        for case in family_cases(nv):
+            if try_case(case) and len(viol) >= 3:
+                return {'violations': viol, 'searched': n, 'exhaustive': False}
+            if ctx.time_left() < 100:
+                exhaustive = False
+                break
         if viol:
             return {'violations': viol, 'searched': n, 'exhaustive': False}
     for a, b in race_pairs(ctx.n(2, 3)):
